@@ -421,6 +421,45 @@ pub fn run(ctx: &Ctx) {
         "path",
     );
 
+    // index literals that do not fit the index type must not address an element (a parse error, or no element at all)
+    let big: Vec<String> = {
+        let mut v = vec![];
+        for base in [1u128 << 64, 1u128 << 65, 1u128 << 96, (1u128 << 127) - 4, 1u128 << 32 << 32, u64::MAX as u128 + 1] {
+            for off in 0..4u128 {
+                v.push((base + off).to_string());
+            }
+        }
+        v.push("340282366920938463463374607431768211456".into());
+        v.push("99999999999999999999999".into());
+        v
+    };
+    let list_input = Value::Map(
+        [("items".to_string(), Value::Vec((0..4).map(|i| Value::String(format!("leaf#{i}"))).collect()))].into_iter().collect(),
+    );
+    ctx.enumerate(
+        "oversized-index-literals",
+        big.len() as u64,
+        true,
+        |i, acc| {
+            let text = format!("items.{}", big[i as usize]);
+            acc.cell("path:oversized-index", true);
+            acc.sample("path:oversized-index", || text.clone());
+            match catch(|| Expr::parse(&text)) {
+                Err(p) => Err(Issue::new("path:panic", format!("Expr::parse panicked ({p}) on {text:?}"))),
+                Ok(Err(_)) => Ok(()),
+                Ok(Ok(e)) => match crate::core::block_on(e.evaluate(&list_input)) {
+                    Ok(Value::None) => Ok(()),
+                    other => Err(Issue::new(
+                        "path:oversized-index-addresses-an-element",
+                        format!("{text:?} addresses no element of a 4-element list but evaluates to {}", me::show_actual(&other)),
+                    )),
+                },
+            }
+        },
+        |i| serde_json::json!({"oversized_index_text": format!("items.{}", big[i as usize])}),
+        "text",
+    );
+
     let n2 = ctx.tier.pick(20_000u64, 300_000u64);
     ctx.random(
         "symbol-function-tables",
